@@ -628,88 +628,100 @@ class AsyncFIXConnection:
         if self._connection_state != ConnectionState.RESENDREQ_AWAITING:
             await self._state_set(ConnectionState.RESENDREQ_HANDLING)
 
-        assert resend_msg.msg_type == FMsg.RESENDREQUEST
-        assert self._connection_state in {
-            ConnectionState.RESENDREQ_HANDLING,
-            ConnectionState.RESENDREQ_AWAITING,
-        }
+        try:
+            assert resend_msg.msg_type == FMsg.RESENDREQUEST
+            assert self._connection_state in {
+                ConnectionState.RESENDREQ_HANDLING,
+                ConnectionState.RESENDREQ_AWAITING,
+            }
 
-        begin_seq_no = int(resend_msg[FTag.BeginSeqNo])
-        end_seq_no = int(resend_msg[FTag.EndSeqNo])
-        if end_seq_no == 0:
-            end_seq_no = sys.maxsize
-        self.log.info("Received resent request from %s to %s", begin_seq_no, end_seq_no)
-        journal_replay_msgs = self._journaler.recover_messages(
-            self._session, MessageDirection.OUTBOUND, begin_seq_no, end_seq_no
-        )
+            begin_seq_no = int(resend_msg[FTag.BeginSeqNo])
+            end_seq_no = int(resend_msg[FTag.EndSeqNo])
+            if end_seq_no == 0:
+                end_seq_no = sys.maxsize
+            self.log.info(
+                "Received resent request from %s to %s", begin_seq_no, end_seq_no
+            )
+            journal_replay_msgs = self._journaler.recover_messages(
+                self._session, MessageDirection.OUTBOUND, begin_seq_no, end_seq_no
+            )
 
-        # Remember next_num_out
-        current_next_num_out = self._session.next_num_out
+            # Remember next_num_out
+            current_next_num_out = self._session.next_num_out
 
-        self._journaler.set_seq_num(self._session, next_num_out=begin_seq_no)
-        gap_fill_begin = int(begin_seq_no)
-        gap_fill_end = int(begin_seq_no)
+            self._journaler.set_seq_num(self._session, next_num_out=begin_seq_no)
+            try:
+                gap_fill_begin = int(begin_seq_no)
+                gap_fill_end = int(begin_seq_no)
 
-        noreply_msgs = {
-            FMsg.LOGON,
-            FMsg.LOGOUT,
-            FMsg.RESENDREQUEST,
-            FMsg.HEARTBEAT,
-            FMsg.TESTREQUEST,
-            FMsg.SEQUENCERESET,
-        }
+                noreply_msgs = {
+                    FMsg.LOGON,
+                    FMsg.LOGOUT,
+                    FMsg.RESENDREQUEST,
+                    FMsg.HEARTBEAT,
+                    FMsg.TESTREQUEST,
+                    FMsg.SEQUENCERESET,
+                }
 
-        for enc_msg in journal_replay_msgs:
-            replay_msg, _, _ = self._codec.decode(enc_msg, silent=False)
-            msg_seq_num = int(replay_msg[FTag.MsgSeqNum])
+                for enc_msg in journal_replay_msgs:
+                    replay_msg, _, _ = self._codec.decode(enc_msg, silent=False)
+                    msg_seq_num = int(replay_msg[FTag.MsgSeqNum])
 
-            is_sess_msg = replay_msg[FTag.MsgType] in noreply_msgs
-            if is_sess_msg or not await self.should_replay(replay_msg):
-                gap_fill_end = msg_seq_num + 1
-            else:
-                if gap_fill_begin < gap_fill_end:
-                    # we need to send a gap fill message
+                    is_sess_msg = replay_msg[FTag.MsgType] in noreply_msgs
+                    if is_sess_msg or not await self.should_replay(replay_msg):
+                        gap_fill_end = msg_seq_num + 1
+                    else:
+                        if gap_fill_begin < gap_fill_end:
+                            # we need to send a gap fill message
+                            gap_fill_msg = FIXMessage(FMsg.SEQUENCERESET)
+                            gap_fill_msg[FTag.GapFillFlag] = "Y"
+                            gap_fill_msg[FTag.MsgSeqNum] = gap_fill_begin
+                            gap_fill_msg[FTag.NewSeqNo] = str(gap_fill_end)
+                            # breakpoint()
+                            await self.send_msg(gap_fill_msg)
+
+                        # and then resent the replayMsg
+                        # the copy re-journaled by an earlier resend is already marked
+                        replay_msg.set(FTag.PossDupFlag, "Y", replace=True)
+                        if FTag.OrigSendingTime not in replay_msg:
+                            replay_msg[FTag.OrigSendingTime] = replay_msg[
+                                FTag.SendingTime
+                            ]
+                        del replay_msg[FTag.MsgType]
+                        del replay_msg[FTag.BeginString]
+                        del replay_msg[FTag.BodyLength]
+                        del replay_msg[FTag.SendingTime]
+                        del replay_msg[FTag.SenderCompID]
+                        del replay_msg[FTag.TargetCompID]
+                        del replay_msg[FTag.CheckSum]
+                        await self.send_msg(replay_msg)
+
+                        gap_fill_begin = msg_seq_num + 1
+
+                if gap_fill_end < gap_fill_begin:
+                    self.log.warning(
+                        "Journal MsgSeqNum not reflecting last"
+                        f" next_num_out={current_next_num_out}, forcing reset."
+                    )
+
+                assert gap_fill_end <= current_next_num_out, "Unexpected end for gap"
+
+                # Remainder not available in some reason
+                if gap_fill_begin < current_next_num_out:
                     gap_fill_msg = FIXMessage(FMsg.SEQUENCERESET)
                     gap_fill_msg[FTag.GapFillFlag] = "Y"
                     gap_fill_msg[FTag.MsgSeqNum] = gap_fill_begin
-                    gap_fill_msg[FTag.NewSeqNo] = str(gap_fill_end)
-                    # breakpoint()
+                    gap_fill_msg[FTag.NewSeqNo] = current_next_num_out
                     await self.send_msg(gap_fill_msg)
-
-                # and then resent the replayMsg
-                replay_msg[FTag.PossDupFlag] = "Y"
-                replay_msg[FTag.OrigSendingTime] = replay_msg[FTag.SendingTime]
-                del replay_msg[FTag.MsgType]
-                del replay_msg[FTag.BeginString]
-                del replay_msg[FTag.BodyLength]
-                del replay_msg[FTag.SendingTime]
-                del replay_msg[FTag.SenderCompID]
-                del replay_msg[FTag.TargetCompID]
-                del replay_msg[FTag.CheckSum]
-                await self.send_msg(replay_msg)
-
-                gap_fill_begin = msg_seq_num + 1
-
-        if gap_fill_end < gap_fill_begin:
-            self.log.warning(
-                "Journal MsgSeqNum not reflecting last"
-                f" next_num_out={current_next_num_out}, forcing reset."
-            )
-
-        assert gap_fill_end <= current_next_num_out, "Unexpected end for gap"
-
-        # Remainder not available in some reason
-        if gap_fill_begin < current_next_num_out:
-            gap_fill_msg = FIXMessage(FMsg.SEQUENCERESET)
-            gap_fill_msg[FTag.GapFillFlag] = "Y"
-            gap_fill_msg[FTag.MsgSeqNum] = gap_fill_begin
-            gap_fill_msg[FTag.NewSeqNo] = current_next_num_out
-            await self.send_msg(gap_fill_msg)
-
-        self._journaler.set_seq_num(self._session, next_num_out=current_next_num_out)
-
-        if self._connection_state != ConnectionState.RESENDREQ_AWAITING:
-            await self._state_set(ConnectionState.ACTIVE)
+            finally:
+                # whatever happened during the replay, new messages continue where
+                #  they were
+                self._journaler.set_seq_num(
+                    self._session, next_num_out=current_next_num_out
+                )
+        finally:
+            if self._connection_state == ConnectionState.RESENDREQ_HANDLING:
+                await self._state_set(ConnectionState.ACTIVE)
 
     async def _process_seqreset(self, seqreset_msg: FIXMessage):
         """Handles SequenceReset(35=4) message.
